@@ -25,14 +25,16 @@ CHILD_ENV = dict(os.environ, VERIF_WORK=WORKDIR)
 
 # property -> legs.  A leg = (harness, flavour, runs quick, runs thorough)
 PROPS = {
-    "C01": [("resource_sim", "A", 30000, 1000000)],
-    "C02": [("resource_sim", "A", 30000, 1000000)],
-    "C03": [("resource_sim", "A", 30000, 1000000)],
-    "C12": [("resource_sim", "A", 30000, 1000000)],
-    "C07": [("pool_sim", "A", 20000, 600000)],
-    "C08": [("pool_sim", "A", 20000, 600000)],
-    "C20": [("thread_sim", "A", 20000, 600000)],
-    "C11": [("router_sim", "A", 12000, 400000)],
+    # the second leg of the thread properties is the T-flavour build, in which every std::atomic operation of tulz is a
+    # scheduling point as well (sim/tsan_atomics.cpp): same oracles, finer interleaving granularity, no ASan
+    "C01": [("resource_sim", "A", 30000, 1000000), ("resource_sim", "T", 6000, 200000)],
+    "C02": [("resource_sim", "A", 30000, 1000000), ("resource_sim", "T", 6000, 200000)],
+    "C03": [("resource_sim", "A", 30000, 1000000), ("resource_sim", "T", 6000, 200000)],
+    "C12": [("resource_sim", "A", 30000, 1000000), ("resource_sim", "T", 6000, 200000)],
+    "C07": [("pool_sim", "A", 20000, 600000), ("pool_sim", "T", 6000, 200000)],
+    "C08": [("pool_sim", "A", 20000, 600000), ("pool_sim", "T", 6000, 200000)],
+    "C20": [("thread_sim", "A", 20000, 600000), ("thread_sim", "T", 8000, 200000)],
+    "C11": [("router_sim", "A", 12000, 400000), ("router_sim", "T", 4000, 120000)],
     "C10": [("subject_sim", "A", 60000, 3000000)],
     "C18": [("path_sim", "A", 1500, 40000)],
     "C15": [("resource_sim", "T", 12000, 300000), ("pool_sim", "T", 12000, 300000), ("router_sim", "T", 8000, 200000)],
@@ -115,7 +117,7 @@ class Leg:
                                 self.hashes.add(f[2] + f[3])
                     elif line.startswith("SUMMARY "):
                         last_summary = json.loads(line[8:])
-                    elif line.startswith("V "):
+                    elif line.startswith("V ") and vline is None:
                         vline = line.strip()
                     elif line.startswith("HANG"):
                         vline = "HANG"
@@ -179,6 +181,8 @@ class Leg:
     def owns_sanitizer(self, cls):
         if self.prop == "C15":
             return cls.startswith("tsan")
+        if self.prop == "C20" and self.flavour == "T":
+            return cls.startswith("tsan")   # completion flag published without happens-before (thread_sim reads the result after polling)
         # memory errors surface through the property whose harness provoked them
         return cls.startswith("asan") and self.prop in ("C10", "C11", "C20", "C07", "C08", "C18", "C01", "C02")
 
